@@ -8,6 +8,7 @@ import Driver.C16
 import Driver.TA
 import Driver.C10
 import Driver.C14
+import Driver.BA
 
 def main (args : List String) : IO UInt32 :=
   match args with
@@ -21,4 +22,5 @@ def main (args : List String) : IO UInt32 :=
   | ["ta"] => Driver.TA.main
   | ["c10"] => Driver.C10.main
   | ["c14"] => Driver.C14.main
+  | ["ba"] => Driver.BA.main
   | _ => do IO.eprintln "usage: nridrv <property>"; return 2
